@@ -75,6 +75,12 @@ fn unbv128(v: &Value) -> u128 {
     r
 }
 
+/// Attribute values that do not depend on ids, tables or lists.
+fn simple_value(val: &Value) -> AttributeValue {
+    let mut b = Builder { dwarf: write::Dwarf::new(), units: Vec::new(), ids: Vec::new(), files: Vec::new() };
+    b.value(0, val)
+}
+
 impl Builder {
     fn entry(&self, u: usize, e: &Value) -> UnitEntryId {
         self.ids[u][e.as_u64().expect("entry index") as usize - 1]
@@ -395,8 +401,28 @@ fn read_back(dwarf: &read::Dwarf<Slice<'_>>) -> Result<Value, String> {
     Ok(json!(units))
 }
 
+fn werr(stage: &str, e: impl std::fmt::Debug) -> Value {
+    let s = format!("{:?}", e);
+    let name = s.split(|c: char| c == '(' || c == ' ' || c == '{').next().unwrap_or("").to_string();
+    json!({"ok": false, "stage": stage, "err": name, "detail": s})
+}
+
+fn finish(sections: &Sections<EndianVec<RunTimeEndian>>, endian: RunTimeEndian) -> Value {
+    let back = load(sections, endian);
+    match read_back(&back) {
+        Ok(units) => json!({"ok": true, "units": units,
+            "info": bytes_json(sections.debug_info.slice()),
+            "abbrev": bytes_json(sections.debug_abbrev.slice()),
+            "str": bytes_json(sections.debug_str.slice())}),
+        Err(e) => json!({"ok": false, "stage": "readback", "err": e}),
+    }
+}
+
 fn replay(case: &Value) -> Value {
     let endian = if case["be"].as_bool() == Some(true) { RunTimeEndian::Big } else { RunTimeEndian::Little };
+    if case["mode"].as_str() == Some("incremental") {
+        return replay_incremental(case, endian);
+    }
     let mut b = Builder { dwarf: write::Dwarf::new(), units: Vec::new(), ids: Vec::new(), files: Vec::new() };
     for u in case["units"].as_array().expect("units") {
         let enc = encoding_of(u);
@@ -427,18 +453,170 @@ fn replay(case: &Value) -> Value {
     }
     let mut sections = Sections::new(EndianVec::new(endian));
     if let Err(e) = b.dwarf.write(&mut sections) {
-        let s = format!("{:?}", e);
-        let name = s.split(|c: char| c == '(' || c == ' ' || c == '{').next().unwrap_or("").to_string();
-        return json!({"ok": false, "stage": "write", "err": name, "detail": s});
+        return werr("write", e);
     }
-    let back = load(&sections, endian);
-    match read_back(&back) {
-        Ok(units) => json!({"ok": true, "units": units,
-            "info": bytes_json(sections.debug_info.slice()),
-            "abbrev": bytes_json(sections.debug_abbrev.slice()),
-            "str": bytes_json(sections.debug_str.slice())}),
-        Err(e) => json!({"ok": false, "stage": "readback", "err": e}),
+    finish(&sections, endian)
+}
+
+/// Incremental per-unit writing.  `ConvertUnit::write` is the only public way to write
+/// one unit at a time, so the units are obtained from a conversion of an input that
+/// has the same number of units, each with as many (dummy) entries as the script
+/// creates ids: the conversion reserves these ids up front in every output unit
+/// (id k of the script = k-th reserved id), which also makes references to entries
+/// of units that are written later expressible.  `add` of the script becomes
+/// `add_reserved` of the pre-reserved id.  Each unit's calls are performed when the
+/// unit is reached, then the unit is written; `Dwarf::write` finishes.
+fn replay_incremental(case: &Value, endian: RunTimeEndian) -> Value {
+    let units = case["units"].as_array().expect("units");
+    let calls = case["calls"].as_array().expect("calls");
+    // number of ids each unit's script creates
+    let mut nids = vec![0usize; units.len()];
+    for c in calls {
+        if matches!(c["op"].as_str(), Some("add") | Some("reserve")) {
+            nids[c["u"].as_u64().unwrap() as usize - 1] += 1;
+        }
     }
+    // the input: same encodings, dummy entries
+    let mut input = write::Dwarf::new();
+    for (k, u) in units.iter().enumerate() {
+        let id = input.units.add(Unit::new(encoding_of(u), LineProgram::none()));
+        let unit = input.units.get_mut(id);
+        let root = unit.root();
+        for _ in 0..nids[k] {
+            unit.add(root, constants::DW_TAG_variable);
+        }
+    }
+    let mut in_sections = Sections::new(EndianVec::new(endian));
+    if let Err(e) = input.write(&mut in_sections) {
+        return werr("input", e);
+    }
+    let in_dwarf = load(&in_sections, endian);
+    // offsets of all input entries, per unit, in order (root first)
+    let mut in_offsets: Vec<Vec<usize>> = Vec::new();
+    {
+        let mut it = in_dwarf.units();
+        while let Ok(Some(h)) = it.next() {
+            let unit = in_dwarf.unit(h).expect("input unit");
+            let base = unit.header.offset().0;
+            let mut raw = unit.entries_raw(None).expect("raw");
+            let mut e = read::DebuggingInformationEntry::null();
+            let mut v = Vec::new();
+            while !raw.is_empty() {
+                if raw.read_entry(&mut e).expect("entry") {
+                    v.push(base + e.offset.0);
+                }
+            }
+            in_offsets.push(v);
+        }
+    }
+    let mut out = write::Dwarf::new();
+    let mut sections = Sections::new(EndianVec::new(endian));
+    {
+        let mut convert = match out.convert(&in_dwarf) {
+            Ok(c) => c,
+            Err(e) => return werr("convert_new", e),
+        };
+        let mut k = 0usize;
+        loop {
+            let (mut cu, _root) = match convert.read_unit() {
+                Ok(Some(x)) => x,
+                Ok(None) => break,
+                Err(e) => return werr("convert_read_unit", e),
+            };
+            // ids of every unit's entries through the conversion's reservation table
+            let mut uids: Vec<UnitId> = Vec::new();
+            let mut ids: Vec<Vec<UnitEntryId>> = Vec::new();
+            for offs in &in_offsets {
+                let mut v = Vec::new();
+                let mut uid = None;
+                for o in offs {
+                    match cu.convert_debug_info_ref(DebugInfoOffset(*o)) {
+                        Ok(DebugInfoRef::Entry(u, e)) => {
+                            uid = Some(u);
+                            v.push(e);
+                        }
+                        other => return werr("id_lookup", other),
+                    }
+                }
+                uids.push(uid.expect("unit id"));
+                ids.push(v);
+            }
+            let mut next_id = vec![1usize; units.len()]; // next unused pre-reserved id per unit (0 = root)
+            // replay the id allocation of the whole script so that indices agree
+            let mut alloc: Vec<Vec<UnitEntryId>> = ids.iter().map(|v| vec![v[0]]).collect();
+            for c in calls {
+                let u = c["u"].as_u64().unwrap() as usize - 1;
+                if matches!(c["op"].as_str(), Some("add") | Some("reserve")) {
+                    alloc[u].push(ids[u][next_id[u]]);
+                    next_id[u] += 1;
+                }
+            }
+            let ent = |u: usize, e: &Value| -> UnitEntryId { alloc[u][e.as_u64().expect("entry index") as usize - 1] };
+            let mut created = 1usize;
+            for c in calls {
+                let u = c["u"].as_u64().unwrap() as usize - 1;
+                if u != k {
+                    continue;
+                }
+                let unit: &mut Unit = &mut *cu.unit;
+                match c["op"].as_str().expect("op") {
+                    "add" => {
+                        let id = alloc[u][created];
+                        created += 1;
+                        unit.add_reserved(id, ent(u, &c["p"]), tag_by_name(c["tag"].as_str().unwrap()));
+                    }
+                    "reserve" => created += 1,
+                    "add_reserved" => unit.add_reserved(ent(u, &c["e"]), ent(u, &c["p"]), tag_by_name(c["tag"].as_str().unwrap())),
+                    "set" => {
+                        let val = &c["val"];
+                        let v = match val["k"].as_str().expect("kind") {
+                            "UnitRef" => AttributeValue::UnitRef(ent(u, &val["e"])),
+                            "DebugInfoRef" => {
+                                let tu = val["u"].as_u64().unwrap() as usize - 1;
+                                AttributeValue::DebugInfoRef(DebugInfoRef::Entry(uids[tu], ent(tu, &val["e"])))
+                            }
+                            "StringRef" => AttributeValue::StringRef(cu.strings.add(bytes_of(&val["s"]))),
+                            "LineStringRef" => AttributeValue::LineStringRef(cu.line_strings.add(bytes_of(&val["s"]))),
+                            "Exprloc" if !val["ops"].is_null() => {
+                                let mut ex = Expression::new();
+                                for op in val["ops"].as_array().expect("ops") {
+                                    match op["op"].as_str().expect("op") {
+                                        "constu" => ex.op_constu(unbv(&op["v"])),
+                                        "deref_type" => ex.op_deref_type(op["size"].as_u64().unwrap_or(4) as u8, ent(u, &op["e"])),
+                                        "convert" => ex.op_convert(Some(ent(u, &op["e"]))),
+                                        "call" => ex.op_call(ent(u, &op["e"])),
+                                        "call_ref" => {
+                                            let tu = op["u"].as_u64().unwrap() as usize - 1;
+                                            ex.op_call_ref(DebugInfoRef::Entry(uids[tu], ent(tu, &op["e"])))
+                                        }
+                                        o => panic!("unknown op {}", o),
+                                    }
+                                }
+                                AttributeValue::Exprloc(ex)
+                            }
+                            "LocationListRef" | "RangeListRef" | "FileIndex" => {
+                                return json!({"ok": false, "stage": "unsupported-in-incremental"})
+                            }
+                            _ => simple_value(val),
+                        };
+                        unit.get_mut(ent(u, &c["e"])).set(at_by_name(c["name"].as_str().unwrap()), v);
+                    }
+                    "delete" => unit.get_mut(ent(u, &c["e"])).delete(at_by_name(c["name"].as_str().unwrap())),
+                    "sibling" => unit.get_mut(ent(u, &c["e"])).set_sibling(c["v"].as_bool().unwrap_or(true)),
+                    "delete_child" => unit.get_mut(ent(u, &c["p"])).delete_child(ent(u, &c["e"])),
+                    o => panic!("unknown call {}", o),
+                }
+            }
+            if let Err(e) = cu.write(&mut sections) {
+                return werr("write", e);
+            }
+            k += 1;
+        }
+    }
+    if let Err(e) = out.write(&mut sections) {
+        return werr("write", e);
+    }
+    finish(&sections, endian)
 }
 
 fn record(_out: &str, _a: &Args) {
